@@ -362,6 +362,12 @@ impl Scenario for PairScn {
             if h.pair.assets.iter().any(|a| matches!(a, AssetInfo::NativeToken { .. })) {
                 v.push(Act::BadProvide { user: MALLORY.to_string(), kind: "native_labelled_as_token".to_string() });
                 v.push(Act::BadProvide { user: MALLORY.to_string(), kind: "underfunded_native".to_string() });
+                // an asset list whose second entry is not the other pool asset: a token the pool does not hold, or the
+                // first entry again (the first entry is a pool asset and is paid for)
+                for j in 0..2 {
+                    v.push(Act::BadProvide { user: MALLORY.to_string(), kind: format!("second_entry_foreign:{j}") });
+                    v.push(Act::BadProvide { user: MALLORY.to_string(), kind: format!("first_entry_twice:{j}") });
+                }
                 for idx in 0..2u8 {
                     if let AssetInfo::NativeToken { denom } = &h.pair.assets[idx as usize] {
                         if (self.property == "C01" || self.property == "C03") && w.native_balance(&h.pair.addr, &denom.to_uppercase()) == 0 {
@@ -525,6 +531,35 @@ impl Scenario for PairScn {
                 let d = [(res[0] / 10).max(2), (res[1] / 10).max(2)];
                 let underfunded = kind == "underfunded_native";
                 let mut assets = vec![];
+                if kind.starts_with("second_entry_foreign:") || kind.starts_with("first_entry_twice:") {
+                    let j: usize = kind.rsplit(':').next().unwrap().parse().unwrap();
+                    let second = if kind.starts_with("second_entry_foreign:") { AssetInfo::Token { contract_addr: "unrelatedtoken".to_string() } } else { p.assets[j].clone() };
+                    let ub = [info_balance(w, &p.assets[0], user), info_balance(w, &p.assets[1], user)];
+                    let lpb = w.cw20_balance(&p.lp, user);
+                    let mut funds: Vec<cosmwasm_std::Coin> = vec![];
+                    match &p.assets[j] {
+                        AssetInfo::NativeToken { denom } => funds.push(cosmwasm_std::coin(d[j], denom)),
+                        AssetInfo::Token { contract_addr } => w.cw20_allow(contract_addr, user, &p.addr, d[j]),
+                    }
+                    let r = w.exec(user, &p.addr, &white_whale_std::pool_network::pair::ExecuteMsg::ProvideLiquidity { assets: [asset(&p.assets[j], d[j]), asset(&second, d[1 - j])], slippage_tolerance: None, receiver: None }, &funds);
+                    let ua = [info_balance(w, &p.assets[0], user), info_balance(w, &p.assets[1], user)];
+                    let minted = w.cw20_balance(&p.lp, user) - lpb;
+                    match &r {
+                        Ok(_) => {
+                            cx.count("bad_provide:accepted");
+                            // whatever the pool made of the list, shares may only be minted for assets that arrived
+                            cx.check("provide.user_paid_exactly", minted == 0 || (ub[0] - ua[0] == d[0] && ub[1] - ua[1] == d[1]), || {
+                                format!("deposit listing {:?} {} and then '{}' {} was accepted: user balance moved {:?}->{:?}, minted {} of supply {}", p.assets[j], d[j], kind, d[1 - j], ub, ua, minted, supply)
+                            });
+                        }
+                        Err(_) => {
+                            cx.count("bad_provide:rejected");
+                            if let AssetInfo::Token { contract_addr } = &p.assets[j] {
+                                let _ = w.exec(user, contract_addr, &cw20::Cw20ExecuteMsg::DecreaseAllowance { spender: p.addr.clone(), amount: cosmwasm_std::Uint128::new(u128::MAX), expires: None }, &[]);
+                            }
+                        }
+                    }
+                } else {
                 for i in 0..2 {
                     let info = match &p.assets[i] {
                         AssetInfo::NativeToken { denom } if !underfunded => AssetInfo::Token { contract_addr: denom.clone() },
@@ -565,6 +600,7 @@ impl Scenario for PairScn {
                             }
                         }
                     }
+                }
                 }
             }
             Act::BadWithdraw { user, kind } => {
